@@ -103,32 +103,32 @@ abbrev ofV (v : Ver) : PyVal := ofVer "Version" v
 
 abbrev FState := PyVal × List PyVal × PyVal × PyVal
 
-/-- what one iteration of the loop of `filter` does, in model terms; state = `(parsed_version, __yield, yielded,
-found_prereleases)` -/
-def StepSpec (sp : Spec) (ov pre' : Option Bool) (body : PyVal → FState → M (ForInStep FState)) : Prop :=
+/-- what one iteration of the loop of `filter` does, in model terms; state = `enc (parsed_version, __yield, yielded,
+found_prereleases)` — `enc` says in which order the translated loop carries the four locals -/
+def StepSpec {σ : Type} (enc : FState → σ) (sp : Spec) (ov pre' : Option Bool) (body : PyVal → σ → M (ForInStep σ)) : Prop :=
   ∀ v : Ver, WF v → ∀ (pv0 : PyVal) (ys fs : List Ver),
-    body (ofV v) (pv0, ys.map ofV, PyVal.bool (!ys.isEmpty), PyVal.list (fs.map ofV)) =
+    body (ofV v) (enc (pv0, ys.map ofV, PyVal.bool (!ys.isEmpty), PyVal.list (fs.map ofV))) =
       (do let c ← sp.contains ov v (some (pre'.getD true))
           if c then do
             let deferred ← (if v.isPre then (if pre' == some true then pure false else do
                   let own ← sp.prereleases ov
                   pure (!own)) else pure false : R Bool)
-            if deferred then pure (ForInStep.yield (ofV v, ys.map ofV, PyVal.bool (!ys.isEmpty), PyVal.list ((fs ++ [v]).map ofV)))
-            else pure (ForInStep.yield (ofV v, (ys ++ [v]).map ofV, PyVal.bool (!(ys ++ [v]).isEmpty), PyVal.list (fs.map ofV)))
-          else pure (ForInStep.yield (ofV v, ys.map ofV, PyVal.bool (!ys.isEmpty), PyVal.list (fs.map ofV))))
+            if deferred then pure (ForInStep.yield (enc (ofV v, ys.map ofV, PyVal.bool (!ys.isEmpty), PyVal.list ((fs ++ [v]).map ofV))))
+            else pure (ForInStep.yield (enc (ofV v, (ys ++ [v]).map ofV, PyVal.bool (!(ys ++ [v]).isEmpty), PyVal.list (fs.map ofV))))
+          else pure (ForInStep.yield (enc (ofV v, ys.map ofV, PyVal.bool (!ys.isEmpty), PyVal.list (fs.map ofV)))))
 
-theorem filter_loop (sp : Spec) (ov pre' : Option Bool) (body : PyVal → FState → M (ForInStep FState))
-    (hstep : StepSpec sp ov pre' body) (items : List Ver) (hw : ∀ v ∈ items, WF v) :
+theorem filter_loop {σ : Type} (enc : FState → σ) (sp : Spec) (ov pre' : Option Bool) (body : PyVal → σ → M (ForInStep σ))
+    (hstep : StepSpec enc sp ov pre' body) (items : List Ver) (hw : ∀ v ∈ items, WF v) :
     ∀ (pv0 : PyVal) (ys fs : List Ver),
     (match sp.filterLoop ov pre' (items.map fun v => (v, v)) ys fs with
      | .ok (y', f') => ∃ pv',
-        forIn (items.map ofV) (pv0, ys.map ofV, PyVal.bool (!ys.isEmpty), PyVal.list (fs.map ofV)) body
-          = .ok (pv', y'.map ofV, PyVal.bool (!y'.isEmpty), PyVal.list (f'.map ofV))
+        forIn (items.map ofV) (enc (pv0, ys.map ofV, PyVal.bool (!ys.isEmpty), PyVal.list (fs.map ofV))) body
+          = .ok (enc (pv', y'.map ofV, PyVal.bool (!y'.isEmpty), PyVal.list (f'.map ofV)))
      | .error e =>
-        forIn (items.map ofV) (pv0, ys.map ofV, PyVal.bool (!ys.isEmpty), PyVal.list (fs.map ofV)) body
+        forIn (items.map ofV) (enc (pv0, ys.map ofV, PyVal.bool (!ys.isEmpty), PyVal.list (fs.map ofV))) body
           = .error e) := by
   induction items with
-  | nil => intro pv0 ys fs; simp [Spec.filterLoop]
+  | nil => intro pv0 ys fs; simp only [Spec.filterLoop, List.map_nil, List.forIn_nil]; exact ⟨pv0, rfl⟩
   | cons v rest ih =>
     intro pv0 ys fs
     have hv : WF v := hw v (List.mem_cons_self ..)
@@ -187,16 +187,16 @@ theorem kw_value (p : Option Bool) :
 
 /-- the loop of `filter` followed by whatever the source does with its final state (`K`): nothing here depends on how the
 body or the tail are spelled, only on what they compute (`hstep`, `hK`) -/
-theorem filter_aux (sp : Spec) (ov pre' : Option Bool) (body : PyVal → FState → M (ForInStep FState)) (K : FState → M PyVal)
-    (hstep : StepSpec sp ov pre' body)
-    (hK : ∀ (pv : PyVal) (ys fs : List Ver), K (pv, ys.map ofV, PyVal.bool (!ys.isEmpty), PyVal.list (fs.map ofV)) =
+theorem filter_aux {σ : Type} (enc : FState → σ) (sp : Spec) (ov pre' : Option Bool) (body : PyVal → σ → M (ForInStep σ)) (K : σ → M PyVal)
+    (hstep : StepSpec enc sp ov pre' body)
+    (hK : ∀ (pv : PyVal) (ys fs : List Ver), K (enc (pv, ys.map ofV, PyVal.bool (!ys.isEmpty), PyVal.list (fs.map ofV))) =
       .ok (PyVal.iter ((if (ys.isEmpty && !fs.isEmpty) = true then fs else ys).map ofV)))
     (items : List Ver) (hw : ∀ v ∈ items, WF v) :
-    (forIn (items.map ofV) (PyVal.unbound, ([] : List PyVal), PyVal.bool false, PyVal.list []) body >>= K) =
+    (forIn (items.map ofV) (enc (PyVal.unbound, ([] : List PyVal), PyVal.bool false, PyVal.list [])) body >>= K) =
       Except.map (fun l => PyVal.iter (List.map ofV l)) (do
         let __x ← sp.filterLoop ov pre' (items.map fun v => (v, v)) [] []
         if (__x.fst.isEmpty && !__x.snd.isEmpty) = true then pure __x.snd else pure __x.fst) := by
-  have hl := filter_loop sp ov pre' body hstep items hw PyVal.unbound [] []
+  have hl := filter_loop enc sp ov pre' body hstep items hw PyVal.unbound [] []
   cases hf : sp.filterLoop ov pre' (items.map fun v => (v, v)) [] [] with
   | error e =>
     rw [hf] at hl
@@ -228,7 +228,9 @@ theorem Specifier.filter_eq_model (sp : Spec) (ov pre : Option Bool) (items : Li
   rcases pre with _ | _ | _ <;> rcases ov with _ | _ | _ <;>
     simp only [ofOptBool, isNone_none, isNone_bool, if_true, if_false, Bool.not_true, Bool.not_false, Bool.false_eq_true,
       getattr_spec_pre, ok_bind, pure_ok, iterate_list, truthy_bool, truthy_none] <;>
-    (refine filter_aux sp _ _ _ _ ?_ ?_ items hw
+    (first
+      | refine filter_aux (fun t => t) sp _ _ _ _ ?_ ?_ items hw
+      | refine filter_aux (fun t : FState => (t.1, t.2.1, t.2.2.2, t.2.2.1)) sp _ _ _ _ ?_ ?_ items hw
      · -- one iteration
        intro v hv pv0 ys fs
        have hc : ∀ (ov : Option Bool) (b : Bool), Gen.PySrc.Specifier.contains (ofSpec sp ov) (ofVer "Version" v) (.bool b) =
